@@ -313,7 +313,7 @@ def scrapingSetOf (ss : List SI) : List Hash := (ss.map (·.scraping.keys)).flat
 
 /-- `assign` iterates the active map: each active hash once, in schedule order -/
 def assign (o : Opt) (active : List Hash) (glob : Hash → St) (sc : Sched) (c : CS) : CS × List Nat × Space :=
-  assignLoop o (scrapingSetOf c.shards) glob ((sc.assign.filter active.contains).eraseDups) c sc.picks {}
+  assignLoop o (scrapingSetOf c.shards) glob (uniq (sc.assign.filter active.contains)) c sc.picks {}
 
 /-! ### tryScaleDown -/
 
@@ -379,9 +379,9 @@ def sdLoop (o : Opt) (sc : Sched) : Nat → CS → List Nat → CS
     | some src =>
       if Gen.sdSkipIdle src.rt then sdLoop o sc k c picks else
       let keys := src.scraping.keys
-      let ord1 := ((orderFor sc.canIdle (k + 1)).filter keys.contains).eraseDups
+      let ord1 := uniq ((orderFor sc.canIdle (k + 1)).filter keys.contains)
       if !shardCanBeIdle o c.shards (k + 1) ord1 then c else
-      let ord2 := ((orderFor sc.becomeIdle (k + 1)).filter keys.contains).eraseDups
+      let ord2 := uniq ((orderFor sc.becomeIdle (k + 1)).filter keys.contains)
       let (c', picks', ok) := sbiLoop o (k + 1) ord2 c picks
       if !ok then c' else sdLoop o sc k c' picks'
 
